@@ -468,9 +468,9 @@ type c15Req struct {
 	Window      string // directed ttl-limited class: below-clamped / in-clamp-window / above-unclamped / ""
 	NotBefore   string
 	ExcludeCN   bool
-	KeyType   string
-	KeyBits   int
-	csrPEM    string
+	KeyType     string
+	KeyBits     int
+	csrPEM      string
 }
 
 func (q *c15Req) usesCSR() bool {
